@@ -66,6 +66,33 @@ theorem generated_determineCipherSuite_first_preference (b : TBmc) (junk : Junk)
     exact Bmc.Proofs.C12.first_advertised_preference (prefs.map viewSuite) hlen2 ch hch rs hw hlen (viewSuite p) hd
   | _ => rw [hd] at h1; simp [RF.map, resultOf, RF.lift] at h1
 
+/-- ONE preference: `determineCipherSuite` AS TRANSLATED ON THIS RUN proposes it and asks the BMC nothing — for EVERY BMC -/
+theorem generated_determineCipherSuite_single (b : TBmc) (junk : Junk) (fuel : Nat) (hf : 64 ≤ fuel) (tail : Bytes)
+    (p : Gen.Dec.CipherSuite) (log : List GetChannelCipherSuitesReq) :
+    (bmc_V2SessionlessTransport_determineCipherSuite fuel (ansOf b junk) tail [p] log).1.map viewSuite = RF.ok (viewSuite p) ∧
+    (bmc_V2SessionlessTransport_determineCipherSuite fuel (ansOf b junk) tail [p] log).2.map viewReq = log.map viewReq := by
+  obtain ⟨h1, h2⟩ := Bmc.Proofs.GenOrch.determineCipherSuite_gen_eq b junk fuel hf tail [p] log
+  have e : determineFull ([p].map viewSuite) (pageOf b) = .propose (viewSuite p) false := rfl
+  rw [e] at h1 h2
+  exact ⟨h1, by simpa [discoveryRan] using h2⟩
+
+/-- NO preference, against a BMC serving the encoding of any well-formed records: the translated code proposes suite 17 when it
+    is advertised, else suite 3 when that is, else nothing (the library's documented defaults, `C12.defaults`) -/
+theorem generated_determineCipherSuite_defaults (b : TBmc) (junk : Junk) (fuel : Nat) (hf : 64 ≤ fuel) (tail : Bytes)
+    (log : List GetChannelCipherSuitesReq) (ch : UInt8) (hch : ch.toNat < 16) (rs : List Record) (hw : ∀ r ∈ rs, r.wf)
+    (hlen : (encodeRecords rs).length < 1024)
+    (hb : ∀ w, w < 64 → pageOf b w = pageOfBody (fun i => some (pageBody ch (encodeRecords rs) i)) w) :
+    let adv := ((rs.flatMap expand).map view).map suiteOfEntry
+    (bmc_V2SessionlessTransport_determineCipherSuite fuel (ansOf b junk) tail [] log).1.map viewSuite =
+      RF.lift (resultOf
+        (if adv.contains ⟨3, 4, 1⟩ then .propose ⟨3, 4, 1⟩ true
+         else if adv.contains ⟨1, 1, 1⟩ then .propose ⟨1, 1, 1⟩ true else .noSupported)) := by
+  intro adv
+  obtain ⟨h1, _⟩ := Bmc.Proofs.GenOrch.determineCipherSuite_gen_eq b junk fuel hf tail [] log
+  rw [show ([] : List Gen.Dec.CipherSuite).map viewSuite = [] from rfl, determineFull_congr _ _ _ hb,
+    Bmc.Proofs.C12.discovery_then_choice [] ch hch rs hw hlen, Bmc.Proofs.C12.defaults] at h1
+  exact h1
+
 /-- the hypothesis on the BMC is satisfiable: e.g. a BMC holding the records of suites 3 and 17 plus an OEM record, answering
     every list index with the corresponding 16-byte page -/
 example : ∃ b : TBmc, ∀ w, w < 64 →
